@@ -32,6 +32,7 @@ type unit struct {
 	tables     map[types.Object]*table // package-level (or struct field) arrays usable in index expressions
 	fields     map[string]fieldInfo    // flattened state fields
 	instrTable *instrTable
+	ghost      map[string]bool // flattened field names that are write-mostly bookkeeping: eliminated
 }
 
 type fieldInfo struct {
@@ -161,7 +162,7 @@ type fctx struct {
 	fresh int
 	pre   []string // pending monadic binders (openers); each closes with ")"
 	cbVar map[types.Object]string // local bound to a callback field (OnWDM)
-	hVar  map[string]bool
+	ghostDef map[string]bool      // ghost fields assigned so far on this path
 }
 
 func coqIdent(s string) string {
@@ -281,6 +282,15 @@ func (c *fctx) expr(e ast.Expr) string {
 		u.fail(x.Pos(), "unsupported identifier %s", x.Name)
 	case *ast.SelectorExpr:
 		if fi, ok := c.fieldName(x); ok {
+			if c.u.ghost[fi.name] {
+				if !c.ghostDef[fi.name] {
+					u.fail(x.Pos(), "read of bookkeeping field %s before it is assigned in this function", fi.name)
+				}
+				if fi.isBool {
+					return "(z2b g_" + fi.name + ")"
+				}
+				return "g_" + fi.name
+			}
 			if fi.isBool {
 				return "(z2b (get " + fi.name + " s))"
 			}
@@ -1026,6 +1036,14 @@ func (c *fctx) assignOne(lhs ast.Expr, as *ast.AssignStmt, op token.Token, rhs s
 			u.fail(pos, "state write in pure function")
 		}
 		val := rhs
+		if c.u.ghost[fi.name] {
+			if op != token.ILLEGAL {
+				u.fail(pos, "read-modify-write of bookkeeping field %s", fi.name)
+			}
+			open, cl := c.takePre()
+			c.ghostDef[fi.name] = true
+			return open + "let g_" + fi.name + " := " + c.toZ(fi, val) + " in\n" + rest() + cl
+		}
 		if op != token.ILLEGAL {
 			cur := "(get " + fi.name + " s)"
 			val = c.arith(op, cur, rhs, c.info.Types[lhs].Type, pos)
@@ -1088,11 +1106,23 @@ func (c *fctx) ifStmt(x *ast.IfStmt, after []ast.Stmt, k cont) string {
 
 // branch emits `if cond then A else B` followed by `after`, introducing a join point when more than
 // one path falls through into a non-trivial continuation.
+func (c *fctx) saveGhost() map[string]bool {
+	m := map[string]bool{}
+	for k, v := range c.ghostDef {
+		m[k] = v
+	}
+	return m
+}
+
 func (c *fctx) branch(node ast.Node, cond string, arms [][]ast.Stmt, after []ast.Stmt, k cont) string {
+	saved := c.saveGhost()
+	defer func() { c.ghostDef = saved }()
+	restore := func() { c.ghostDef = map[string]bool{}; for k, v := range saved { c.ghostDef[k] = v } }
 	n := c.exitsList(arms[0]) + c.exitsList(arms[1])
 	if n <= 1 || (len(after) == 0 && k.trivial) {
 		kk := cont{func() string { return c.stmts(after, k) }, len(after) == 0 && k.trivial}
 		a := c.stmts(arms[0], kk)
+		restore()
 		b := c.stmts(arms[1], kk)
 		return "(if " + cond + " then\n" + a + "\nelse\n" + b + ")"
 	}
@@ -1101,8 +1131,10 @@ func (c *fctx) branch(node ast.Node, cond string, arms [][]ast.Stmt, after []ast
 	c.fresh++
 	kn := fmt.Sprintf("k_%d", c.fresh)
 	kbody := c.stmts(after, k)
+	restore()
 	jump := cont{func() string { return kn + " " + actual }, true}
 	a := c.stmts(arms[0], jump)
+	restore()
 	b := c.stmts(arms[1], jump)
 	return "let " + kn + " := fun " + formal + " =>\n" + kbody + " in\n(if " + cond + " then\n" + a + "\nelse\n" + b + ")"
 }
